@@ -9,6 +9,7 @@ CONSTANTS
   RestartResizes = FALSE
   IgnoreModes = {TRUE, FALSE}
   AnonModes = {FALSE}
+  MaxFlight = 0
   Faults = FALSE
   AllowWindow = FALSE
   EmitEdges = TRUE
